@@ -4,10 +4,38 @@ field store and call site, in every workspace crate."""
 from . import mir
 from . import contracts as C
 from .report import load_tsv
+from .e1 import norm_key
 
 
-def run_contracts(ctx, rep, cfg="Q", rule="CONTRACT"):
-    rep.rule(rule, "every aggregate construction and field store of a contract-carrying type (shared::util::itime I*, "
+def run_contracts(ctx, rep, cfg=None, rule="CONTRACT", select=None, floor=60):
+    """quick: configuration Q; thorough: every configuration of the tier."""
+    seen = {}
+    best = 0
+    for c_ in ([cfg] if cfg else ctx.configs):
+        best = max(best, _run_contracts(ctx, rep, c_, rule, seen, select))
+    rep.rule("PRECOND", "see CONTRACT: parameter contracts are checked at every call site")
+    rep.floor(rule + " stores and calls", best, floor)
+
+
+class _Dedup:
+    """report a key once: an automatic discharge in an earlier configuration does not hide a failure in a later one"""
+    def __init__(self, rep, seen):
+        self.rep, self.seen = rep, seen
+
+    def ok(self, rule, key, **kw):
+        if (rule, key) not in self.seen:
+            self.seen[(rule, key)] = "auto"
+            self.rep.ok(rule, key, **kw)
+
+    def classify(self, rule, key, reviewed, **kw):
+        if self.seen.get((rule, key)) != "classified":
+            self.seen[(rule, key)] = "classified"
+            self.rep.classify(rule, key, reviewed, **kw)
+
+
+def _run_contracts(ctx, rep0, cfg, rule, seen, select=None):
+    rep = _Dedup(rep0, seen)
+    rep0.rule(rule, "every aggregate construction and field store of a contract-carrying type (shared::util::itime I*, "
                    "shared::Posix*/TzifLocalTimeType, SignedDuration) stores a value whose interval lies inside the field's "
                    "contract, and every call of a function with a parameter contract passes an argument inside it; the "
                    "contracts are what the INTERVAL discharge rule assumes when it reads those fields (checked in crate jiff; the generated copy in jiff-static is token-identical by rule E5)")
@@ -17,7 +45,7 @@ def run_contracts(ctx, rep, cfg="Q", rule="CONTRACT"):
     adts = {k[0] for k in C.FIELD}
     n = 0
     for f in prog.fns.values():
-        if f.crate != "jiff":
+        if f.crate != "jiff" or (select is not None and not select(f)):
             continue   # the generated copy is token-identical (rule E5)
         an = None
         ords = {}
@@ -42,7 +70,7 @@ def run_contracts(ctx, rep, cfg="Q", rule="CONTRACT"):
                     an = an or A.analyzer(f)
                     n += 1
                     ords[what] = ords.get(what, 0) + 1
-                    key = "%s::%s | %s#%d" % (f.crate, f.path, what, ords[what])
+                    key = norm_key("%s::%s | %s#%d" % (f.crate, f.path, what, ords[what]))
                     loc = "%s:%s" % (f.file, s.get("ln"))
                     st = an.state_at(bi, si)
                     if st is None:
@@ -68,7 +96,7 @@ def run_contracts(ctx, rep, cfg="Q", rule="CONTRACT"):
                     n += 1
                     what = "call %s arg%d" % (t["path"].split("::")[-1], idx)
                     ords[what] = ords.get(what, 0) + 1
-                    key = "%s::%s | %s#%d" % (f.crate, f.path, what, ords[what])
+                    key = norm_key("%s::%s | %s#%d" % (f.crate, f.path, what, ords[what]))
                     loc = "%s:%s" % (t["span"]["file"], t["span"]["line"])
                     if st is None:
                         rep.ok("PRECOND", key, how="infeasible block", loc=loc, nontrivial=False)
@@ -79,5 +107,4 @@ def run_contracts(ctx, rep, cfg="Q", rule="CONTRACT"):
                     else:
                         rep.classify("PRECOND", key, reviewed, loc=loc,
                                      detail="argument %s passed to %s is not shown to satisfy its parameter contract %s" % (v.iv, t["path"], c))
-    rep.rule("PRECOND", "see CONTRACT: parameter contracts are checked at every call site")
-    rep.floor(rule + " stores and calls", n, 60)
+    return n
